@@ -1339,7 +1339,8 @@ _CHAINS = {
             ('R01.14', 'defaults', lambda c: _layer_defaults(c, 'R01.14')),
             ('R01.15', 'typestates', lambda c: _layer_typestates(c, (_ISI,), 'R01.15')),
             ('R01.16', 'profile_ctor', lambda c: _layer_profile_ctor(c, 'R01.16', (_ISI,))),
-            ('R01.17', 'isi_lengths', lambda c: _layer_isi_lengths(c, 'R01.17'))],
+            ('R01.17', 'isi_lengths', lambda c: _layer_isi_lengths(c, 'R01.17')),
+            ('R01.18', 'class_ops', lambda c: _layer_class_ops(c, 'R01.18'))],
     'C02': [('R02.11', 'plumbing', lambda c: _plumbing(c, (_SPK,), 'R02.11')),
             ('R02.12', 'aux', lambda c: _nonempty_aux(c, 'R02.12')),
             ('R02.13', 'avrg', lambda c: _class_averages(c, 'R02.13', ('PieceWiseLinFunc',))),
@@ -1347,7 +1348,8 @@ _CHAINS = {
             ('R02.15', 'defaults', lambda c: _layer_defaults(c, 'R02.15')),
             ('R02.16', 'typestates', lambda c: _layer_typestates(c, (_SPK,), 'R02.16')),
             ('R02.17', 'profile_ctor', lambda c: _layer_profile_ctor(c, 'R02.17', (_SPK,))),
-            ('R02.18', 'isi_lengths', lambda c: _layer_isi_lengths(c, 'R02.18'))],
+            ('R02.18', 'isi_lengths', lambda c: _layer_isi_lengths(c, 'R02.18')),
+            ('R02.19', 'class_ops', lambda c: _layer_class_ops(c, 'R02.19'))],
     'C03': [('R03.10', 'plumbing', lambda c: _plumbing(c, (_SYN,), 'R03.10')),
             ('R03.11', 'avrg', lambda c: _class_averages(c, 'R03.11', ('DiscreteFunc',))),
             ('R03.12', 'reconcile', lambda c: _layer_reconcile(c, (_SYN,), 'R03.12')),
@@ -1356,7 +1358,8 @@ _CHAINS = {
             ('R03.15', 'guards', lambda c: _layer_guards(c, 'R03.15')),
             ('R03.16', 'profile_ctor', lambda c: _layer_profile_ctor(c, 'R03.16', (_SYN,))),
             ('R03.17', 'index_precond', lambda c: _layer_index_precond(c, 'R03.17')),
-            ('R03.18', 'isi_lengths', lambda c: _layer_isi_lengths(c, 'R03.18'))],
+            ('R03.18', 'isi_lengths', lambda c: _layer_isi_lengths(c, 'R03.18')),
+            ('R03.19', 'class_ops', lambda c: _layer_class_ops(c, 'R03.19'))],
     'C04': [('R04.10', 'plumbing', lambda c: _plumbing(c, (_DIR,), 'R04.10')),
             ('R04.11', 'avrg', lambda c: _class_averages(c, 'R04.11', ('DiscreteFunc',))),
             ('R04.12', 'reconcile', lambda c: _layer_reconcile(c, (_DIR,), 'R04.12')),
@@ -1369,20 +1372,27 @@ _CHAINS = {
     'C05': [('R05.10', 'class_ops', lambda c: _layer_class_ops(c, 'R05.10')),
             ('R05.11', 'reconcile', lambda c: _layer_reconcile(c, (_ISI, _SPK, _SYN, _DIR), 'R05.11')),
             ('R05.12', 'plumbing', lambda c: _plumbing(c, (_ISI, _SPK, _SYN, _DIR), 'R05.12')),
-            ('R05.13', 'profile_ctor', lambda c: _layer_profile_ctor(c, 'R05.13'))],
+            ('R05.13', 'profile_ctor', lambda c: _layer_profile_ctor(c, 'R05.13')),
+            ('R05.14', 'aux', lambda c: _nonempty_aux(c, 'R05.14'))],
     'C06': [('R06.11', 'plumbing', lambda c: _plumbing(c, (_ISI, _SPK, _SYN), 'R06.11')),
             ('R06.12', 'class_ops', lambda c: _layer_class_ops(c, 'R06.12')),
             ('R06.13', 'reconcile', lambda c: _layer_reconcile(c, (_ISI, _SPK, _SYN), 'R06.13')),
             ('R06.14', 'avrg', lambda c: _class_averages(c, 'R06.14')),
-            ('R06.15', 'profile_ctor', lambda c: _layer_profile_ctor(c, 'R06.15', (_ISI, _SPK, _SYN)))],
+            ('R06.15', 'profile_ctor', lambda c: _layer_profile_ctor(c, 'R06.15', (_ISI, _SPK, _SYN))),
+            ('R06.16', 'isi_lengths', lambda c: _layer_isi_lengths(c, 'R06.16')),
+            ('R06.17', 'defaults', lambda c: _layer_defaults(c, 'R06.17')),
+            ('R06.18', 'aux', lambda c: _nonempty_aux(c, 'R06.18'))],
     'C07': [('R07.10', 'avrg', lambda c: _class_averages(c, 'R07.10')),
             ('R07.11', 'reconcile', lambda c: _layer_reconcile(c, (_ISI, _SPK, _SYN, _DIR), 'R07.11')),
             ('R07.12', 'discrete_defs', lambda c: _layer_discrete_defs(c, 'R07.12')),
             ('R07.13', 'profile_ctor', lambda c: _layer_profile_ctor(c, 'R07.13')),
-            ('R07.14', 'isi_lengths', lambda c: _layer_isi_lengths(c, 'R07.14'))],
+            ('R07.14', 'isi_lengths', lambda c: _layer_isi_lengths(c, 'R07.14')),
+            ('R07.15', 'class_ops', lambda c: _layer_class_ops(c, 'R07.15'))],
     'C15': [('R15.8', 'reconcile', lambda c: _layer_reconcile(c, (_ISI, _SPK, _SYN, _DIR), 'R15.8')),
             ('R15.9', 'plumbing', lambda c: _plumbing(c, (_ISI, _SPK, _SYN, _DIR), 'R15.9')),
-            ('R15.10', 'typestates', lambda c: _layer_typestates(c, (_ISI, _SPK, _SYN, _DIR), 'R15.10'))],
+            ('R15.10', 'typestates', lambda c: _layer_typestates(c, (_ISI, _SPK, _SYN, _DIR), 'R15.10')),
+            ('R15.11', 'class_ops', lambda c: _layer_class_ops(c, 'R15.11')),
+            ('R15.12', 'avrg', lambda c: _class_averages(c, 'R15.12'))],
     'C08': [('R08.7', 'isi_lengths', lambda c: [Ob('R08.7', o.title, o.status, o.where, o.detail, o.key, o.construct, o.extra)
                                                  for o in RM.r15_4_threshold_definition(c, 'R15.4', 'R08.2') if o.rule == 'R15.4']),
             ('R08.8', 'aux', lambda c: _nonempty_aux(c, 'R08.8')),
@@ -1391,7 +1401,8 @@ _CHAINS = {
             ('R08.12', 'discrete_defs', lambda c: _layer_discrete_defs(c, 'R08.12')),
             ('R08.13', 'avrg', lambda c: _class_averages(c, 'R08.13')),
             ('R08.14', 'profile_ctor', lambda c: _layer_profile_ctor(c, 'R08.14')),
-            ('R08.15', 'index_precond', lambda c: _layer_index_precond(c, 'R08.15'))],
+            ('R08.15', 'index_precond', lambda c: _layer_index_precond(c, 'R08.15')),
+            ('R08.16', 'defaults', lambda c: _layer_defaults(c, 'R08.16'))],
     'C10': [('R10.7', 'ownership', lambda c: r09_2_ownership(c, 'R10.7', {'PieceWiseConstFunc', 'PieceWiseLinFunc'}))],
     'C12': [('R12.8', 'avrg', lambda c: _class_averages(c, 'R12.8')),
             ('R12.9', 'plumbing', lambda c: _plumbing(c, (_ISI, _SPK, _SYN, _DIR), 'R12.9')),
@@ -1399,18 +1410,24 @@ _CHAINS = {
             ('R12.11', 'guards', lambda c: _layer_guards(c, 'R12.11')),
             ('R12.12', 'profile_ctor', lambda c: _layer_profile_ctor(c, 'R12.12')),
             ('R12.13', 'index_precond', lambda c: _layer_index_precond(c, 'R12.13')),
-            ('R12.14', 'isi_lengths', lambda c: _layer_isi_lengths(c, 'R12.14'))],
+            ('R12.14', 'isi_lengths', lambda c: _layer_isi_lengths(c, 'R12.14')),
+            ('R12.15', 'class_ops', lambda c: _layer_class_ops(c, 'R12.15')),
+            ('R12.16', 'reconcile', lambda c: _layer_reconcile(c, (_ISI, _SPK, _SYN, _DIR), 'R12.16'))],
     'C14': [('R14.8', 'defaults', lambda c: _layer_defaults(c, 'R14.8')),
             ('R14.9', 'reconcile', lambda c: _layer_reconcile(c, (_ISI, _SPK, _SYN, _DIR), 'R14.9')),
             ('R14.10', 'typestates', lambda c: _layer_typestates(c, (_ISI, _SPK, _SYN, _DIR), 'R14.10')),
             ('R14.11', 'guards', lambda c: _layer_guards(c, 'R14.11')),
-            ('R14.12', 'isi_lengths', lambda c: _layer_isi_lengths(c, 'R14.12'))],
+            ('R14.12', 'isi_lengths', lambda c: _layer_isi_lengths(c, 'R14.12')),
+            ('R14.13', 'class_ops', lambda c: _layer_class_ops(c, 'R14.13')),
+            ('R14.14', 'avrg', lambda c: _class_averages(c, 'R14.14'))],
     'C16': [('R16.6', 'plumbing', lambda c: _plumbing(c, (_SYN, _DIR), 'R16.6')),
             ('R16.7', 'defaults', lambda c: _layer_defaults(c, 'R16.7')),
             ('R16.8', 'reconcile', lambda c: _layer_reconcile(c, (_SYN, _DIR), 'R16.8')),
             ('R16.10', 'typestates', lambda c: _layer_typestates(c, (_SYN, _DIR), 'R16.10')),
             ('R16.11', 'index_precond', lambda c: _layer_index_precond(c, 'R16.11')),
-            ('R16.12', 'isi_lengths', lambda c: _layer_isi_lengths(c, 'R16.12'))],
+            ('R16.12', 'isi_lengths', lambda c: _layer_isi_lengths(c, 'R16.12')),
+            ('R16.13', 'class_ops', lambda c: _layer_class_ops(c, 'R16.13')),
+            ('R16.14', 'avrg', lambda c: _class_averages(c, 'R16.14', ('DiscreteFunc',)))],
     'C17': [('R17.6', 'defaults', lambda c: _layer_defaults(c, 'R17.6')),
             ('R17.7', 'reconcile', lambda c: _layer_reconcile(c, (_SYN,), 'R17.7')),
             ('R17.8', 'isi_lengths', lambda c: _layer_isi_lengths(c, 'R17.8'))],
@@ -1419,7 +1436,8 @@ _CHAINS = {
             ('R18.13', 'plumbing', lambda c: _plumbing(c, (_ISI, _SPK, _SYN, _DIR), 'R18.13')),
             ('R18.14', 'add_kernels', lambda c: _layer_add_kernels(c, 'R18.14')),
             ('R18.15', 'index_precond', lambda c: _layer_index_precond(c, 'R18.15')),
-            ('R18.16', 'profile_ctor', lambda c: _layer_profile_ctor(c, 'R18.16'))],
+            ('R18.16', 'profile_ctor', lambda c: _layer_profile_ctor(c, 'R18.16')),
+            ('R18.17', 'class_ops', lambda c: _layer_class_ops(c, 'R18.17'))],
 }
 for _pid, _items in _CHAINS.items():
     for _rid, _kind, _fn_ in _items:
